@@ -147,6 +147,18 @@ func Preview(sql string) int {
 	return StmtUnknown
 }
 
+// PreviewSpecialComment returns the statement type of the code that a leading
+// MySQL-specific comment holds: for "/*!40101 insert into t ... */" Preview
+// answers StmtComment, but the grammar (and MySQL) execute the INSERT.
+func PreviewSpecialComment(sql string) int {
+	trimmed := StripLeadingComments(sql)
+	for strings.HasPrefix(trimmed, "/*!") {
+		// drop "/*!", the optional version number and the blanks after it
+		trimmed = StripLeadingComments(specCodeStart.ReplaceAllString(trimmed, ""))
+	}
+	return Preview(trimmed)
+}
+
 // StmtType returns the statement type as a string
 func StmtType(stmtType int) string {
 	switch stmtType {
